@@ -410,8 +410,12 @@ def jobs(tier):
     add("h_tool", T, tool="batched", S=1, N=N2, spec=True)
     for form in (1, 2, 3):
         add("h_tool", T, tool="islice", S=1, N=(N2 if form < 3 else (4 if q else 6)), spec=True, form=form)
-    for S, Nm in ((0, 0), (1, 3), (2, 3)) if q else ((0, 0), (1, 5), (2, 4)):
+    for S, Nm in ((0, 0), (1, 3), (2, 3)) if q else ((0, 0), (1, 5), (2, 3)):
         add("h_merge", T, S=S, N=Nm)
+    if not q:
+        for L in ([4, 4], [4, 3], [3, 4], [4, 2], [2, 4], [4, 1]):
+            for rev in (False, True):
+                add("h_merge", T, S=2, N=4, L=L, rev=rev)
     import itertools as _it
 
     if q:
@@ -434,7 +438,7 @@ def jobs(tier):
         add("h_tool", T, tool=t, S=S_, N=(2 if S_ == 2 else 3), pool=True, **kw)
     add("h_accumulate_add", T, N=5, fl="list")
     add("h_tee", T, C=2, N=3, M=(6 if q else 8))
-    add("h_tee", T, C=3, N=(2 if q else 3), M=(5 if q else 8))
+    add("h_tee", T, C=3, N=(2 if q else 3), M=(5 if q else 6))
     return J
 
 
